@@ -109,6 +109,9 @@ class FortranRegularExpressions:
 
     SQ_STRING: Pattern = compile(r"\'[^\']*\'", I)
     DQ_STRING: Pattern = compile(r"\"[^\"]*\"", I)
+    # Either kind of literal, whichever opens first; a quote of the other
+    # kind inside a literal is ordinary text
+    ANY_STRING: Pattern = compile(r"\'[^\']*\'|\"[^\"]*\"", I)
     LINE_LABEL: Pattern = compile(r"[ ]*([0-9]+)[ ]+", I)
     NON_DEF: Pattern = compile(r"[ ]*(CALL[ ]+[a-z_]|[a-z_][\w%]*[ ]*=)", I)
     # Fixed format matching rules
